@@ -21,12 +21,13 @@ const (
 	zzSrcFull    = "1356:chA:sA"
 )
 
-// zzUnordered: services (chain:id) registered as NOT ordered - the interchain contract calls IBTPs
-// to / receipts for such a service "batch" IBTPs.
-var zzUnordered = map[string]bool{}
+// zzUnorderedA / zzUnorderedB: the services of chain chA / chB are registered as NOT ordered - the
+// interchain contract calls IBTPs to / receipts for such a service "batch" IBTPs. (Plain scalars: the
+// engine restores package variables per path by value, so a mutated map would leak between paths.)
+var zzUnorderedA, zzUnorderedB bool
 
 func zzServiceJSON(chain, id, name string, status governance.GovernanceStatus, permits map[string]struct{}) []byte {
-	s := &servicemgr.Service{ChainID: chain, ServiceID: id, Name: name, Type: servicemgr.ServiceCallContract, Intro: "intro", Ordered: !zzUnordered[chain+":"+id],
+	s := &servicemgr.Service{ChainID: chain, ServiceID: id, Name: name, Type: servicemgr.ServiceCallContract, Intro: "intro", Ordered: !((chain == "chA" && zzUnorderedA) || (chain == "chB" && zzUnorderedB)),
 		Permission: permits, Details: "details", CreateTime: 1, EvaluationRecords: map[string]*governance.EvaluationRecord{},
 		InvokeRecords: map[string]*governance.InvokeRecord{}, Status: status}
 	b, err := json.Marshal(s)
